@@ -611,7 +611,38 @@ func runPoolScenario(sc *pScenario) pObs {
 			}
 		case "snapshot":
 			quiet(15 + st.WaitMs) // let the asynchronous puts land
-			obs.Snaps = append(obs.Snaps, snapshot(gp, i, st.Probe))
+			sn := snapshot(gp, i, st.Probe)
+			// an instance is handed back by a goroutine started when the call returns: under load that goroutine may not have
+			// run yet.  Wait (up to 3 s) until free + additional + requests still in flight accounts for every instance; if it
+			// never does, the snapshot is reported as it is (an instance really is lost).
+			for tries := 0; tries < 600 && sn.Panic == ""; tries++ {
+				entered := map[int64]bool{} // requests that have started a rule: they hold an instance (a waiter does not)
+				pr.mu.Lock()
+				for _, e := range pr.events {
+					if e.Kind == "enter" {
+						entered[e.Req] = true
+					}
+				}
+				pr.mu.Unlock()
+				inflight := 0
+				lmu.Lock()
+				for id, lv := range lives {
+					select {
+					case <-lv.done:
+					default:
+						if entered[id] {
+							inflight++
+						}
+					}
+				}
+				lmu.Unlock()
+				if len(sn.Free)+len(sn.Addl)+inflight >= int(sc.Max) {
+					break
+				}
+				time.Sleep(5 * time.Millisecond)
+				sn = snapshot(gp, i, st.Probe)
+			}
+			obs.Snaps = append(obs.Snaps, sn)
 		case "sleep":
 			quiet(st.WaitMs)
 		}
